@@ -18,7 +18,7 @@
   state is empty (the restarting speaker at start-up); a family whose deferral started otherwise is
   outside the statement and no longer judged (`assumptions` in checks/c06.py).
 -/
-import Rbgp.Rib.Obs
+import Rbgp.Rib.SpecRef
 namespace Rbgp.Rib.SpecC06
 open Rbgp.Rib
 
@@ -27,20 +27,21 @@ inductive Verdict where
   | fail (step : Nat) (clause : String)
   deriving DecidableEq, Repr
 
-/-- what a consumer stores per prefix: destination id and the ranked paths -/
-abbrev View := List ((Fam × Net) × (Nat × List PathRef))
+/-- what a consumer stores: keyed by the destination identifier carried in the notification (as
+    `ExportMap` / `PendingTx` do), the prefix and the ranked paths -/
+abbrev View := List ((Fam × Nat) × (Net × List PathRef))
 
-def vErase (k : Fam × Net) : View → View
+def vErase (k : Fam × Nat) : View → View
   | [] => []
   | (k', v) :: l => if k' = k then vErase k l else (k', v) :: vErase k l
-def vSet (k : Fam × Net) (v : Nat × List PathRef) (m : View) : View := (k, v) :: vErase k m
-def vGet (k : Fam × Net) : View → Option (Nat × List PathRef)
+def vSet (k : Fam × Nat) (v : Net × List PathRef) (m : View) : View := (k, v) :: vErase k m
+def vGet (k : Fam × Nat) : View → Option (Net × List PathRef)
   | [] => none
   | (k', v) :: l => if k' = k then some v else vGet k l
 
-/-- a consumer applies one notification: an empty path list withdraws the prefix -/
+/-- a consumer applies one notification: an empty path list withdraws the destination -/
 def apply (m : View) (c : ChangeObs) : View :=
-  if c.paths.isEmpty then vErase (c.fam, c.net) m else vSet (c.fam, c.net) (c.destId, c.paths) m
+  if c.paths.isEmpty then vErase (c.fam, c.destId) m else vSet (c.fam, c.destId) (c.net, c.paths) m
 
 def changesOf : ResObs → List ChangeObs
   | .ch c => [c]
@@ -52,8 +53,10 @@ structure St where
   bestOnly : View := []
   addPath : View := []
   deferring : List Fam := []
-  /-- families whose deferral did not start on an empty exportable state -/
+  /-- families whose deferral did not start on an empty exportable state: not judged until the end
+      of that deferral re-announces everything -/
   outside : List Fam := []
+  ref : SpecRef.RefSt := {}
 
 /-- identity of a best path as a non-add-path neighbour sees it: (source, attributes, next hop) -/
 def bestIdent (ps : List PathRef) : Option (Nat × Nat × Option Nat) :=
@@ -71,30 +74,30 @@ def nodupNat : List Nat → Bool
   | [] => true
   | x :: l => !l.contains x && nodupNat l
 
-/-- every prefix of family `f` in view `m` appears in the dump -/
+/-- every destination of family `f` in view `m` appears in the dump -/
 def viewSubset (f : Fam) (m : View) (loc : List LocObs) : Bool :=
-  m.all fun kv => kv.1.1 != f || loc.any fun l => l.net = kv.1.2
+  m.all fun kv => kv.1.1 != f || loc.any fun l => l.destId = kv.1.2
+
+def clauseLoc (st : St) (f : Fam) (l : LocObs) : Option String :=
+  let k := (f, l.destId)
+  match vGet k st.full with
+  | none => some "full-consumer-misses-prefix"
+  | some (n, ps) =>
+      if n ≠ l.net then some "notified-destination-id-names-another-prefix"
+      else if ps ≠ l.paths then some "full-consumer-paths-differ"
+      else match vGet k st.bestOnly with
+      | none => some "best-only-consumer-misses-prefix"
+      | some (_, bp) =>
+          if bestIdent bp ≠ bestIdent l.paths then some "best-only-consumer-best-differs"
+          else match vGet k st.addPath with
+          | none => some "add-path-consumer-misses-prefix"
+          | some (_, ap) => if ap ≠ l.paths then some "add-path-consumer-paths-differ" else none
 
 def checkFam (st : St) (fo : FamObs) : Option String :=
   if st.deferring.contains fo.fam || st.outside.contains fo.fam then none else
   -- identifiers of live prefixes are pairwise distinct
   if !nodupNat (fo.loc.map (·.destId)) then some "destination-ids-not-unique" else
-  if !nodupNat ((st.full.filter fun kv => kv.1.1 == fo.fam).map fun kv => kv.2.1) then
-    some "notified-destination-ids-not-unique" else
-  (firstSome (fun (l : LocObs) =>
-      let k := (fo.fam, l.net)
-      match vGet k st.full with
-      | none => some "full-consumer-misses-prefix"
-      | some (_, ps) =>
-          if ps ≠ l.paths then some "full-consumer-paths-differ"
-          else match vGet k st.bestOnly with
-          | none => some "best-only-consumer-misses-prefix"
-          | some (_, bp) =>
-              if bestIdent bp ≠ bestIdent l.paths then some "best-only-consumer-best-differs"
-              else match vGet k st.addPath with
-              | none => some "add-path-consumer-misses-prefix"
-              | some (_, ap) => if ap ≠ l.paths then some "add-path-consumer-paths-differ" else none)
-    fo.loc).orElse fun _ =>
+  (firstSome (clauseLoc st fo.fam) fo.loc).orElse fun _ =>
   if !viewSubset fo.fam st.full fo.loc then some "full-consumer-keeps-withdrawn-prefix"
   else if !viewSubset fo.fam st.bestOnly fo.loc then some "best-only-consumer-keeps-withdrawn-prefix"
   else if !viewSubset fo.fam st.addPath fo.loc then some "add-path-consumer-keeps-withdrawn-prefix"
@@ -106,13 +109,23 @@ def famLoc (fams : List FamObs) (f : Fam) : List LocObs :=
   | none => []
 
 def hasFam (v : View) (f : Fam) : Bool := v.any fun kv => kv.1.1 == f
+def dropFam (v : View) (f : Fam) : View := v.filter fun kv => kv.1.1 != f
 
-def checkStep (st : St) (op : Op) (s : StepObs) : St × Option String :=
+def checkStep (c : Case) (st : St) (op : Op) (s : StepObs) : St × Option String :=
   let chs := changesOf s.res
-  let st1 : St := { st with
-    full := chs.foldl apply st.full
-    bestOnly := (chs.filter (·.best)).foldl apply st.bestOnly
-    addPath := (chs.filter (·.any)).foldl apply st.addPath }
+  -- the end of a deferral that is not judged re-announces everything: its consumers start afresh
+  let st0 : St := match op with
+    | .endDeferral f =>
+        if st.outside.contains f then
+          { st with full := dropFam st.full f, bestOnly := dropFam st.bestOnly f, addPath := dropFam st.addPath f,
+                    outside := st.outside.erase f }
+        else st
+    | _ => st
+  let st1 : St := { st0 with
+    full := chs.foldl apply st0.full
+    bestOnly := (chs.filter (·.best)).foldl apply st0.bestOnly
+    addPath := (chs.filter (·.any)).foldl apply st0.addPath
+    ref := SpecRef.refStep c st0.ref op s.res }
   let st2 : St := match op with
     | .startDeferral f =>
         { st1 with deferring := f :: st1.deferring.erase f
@@ -126,20 +139,23 @@ def checkStep (st : St) (op : Op) (s : StepObs) : St × Option String :=
         if (famLoc s.fams f).all fun l => chs.any fun c => c.fam = f ∧ c.net = l.net ∧ c.paths = l.paths ∧ c.best ∧ c.any
         then none else some "end-of-deferral-misses-prefix"
     | _ => none
-  (st2, endOk.orElse fun _ => firstSome (checkFam st2) s.fams)
+  (st2, (SpecRef.check c st2.ref s).orElse fun _ => endOk.orElse fun _ => firstSome (checkFam st2) s.fams)
 
-def checkSteps : Nat → St → List Op → List StepObs → Verdict
+def checkSteps (c : Case) : Nat → St → List Op → List StepObs → Verdict
   | _, _, _, [] => .ok
   | _, _, [], _ :: _ => .ok
   | i, st, op :: ops, s :: ss =>
-      match checkStep st op s with
+      match checkStep c st op s with
       | (_, some cl) => .fail i cl
-      | (st', none) => checkSteps (i + 1) st' ops ss
+      | (st', none) => checkSteps c (i + 1) st' ops ss
 
 /-- The C06 reference checker. -/
 def check (c : Case) (o : Obs) : Verdict :=
-  match checkSteps 0 {} c.ops o.steps with
+  match checkSteps c 0 {} c.ops o.steps with
   | .fail i cl => .fail i cl
-  | .ok => if o.panicked then .fail o.steps.length "panic" else .ok
+  | .ok =>
+      if o.panicked then .fail o.steps.length "panic"
+      else if o.steps.length ≠ c.ops.length then .fail o.steps.length "observation-misses-steps"
+      else .ok
 
 end Rbgp.Rib.SpecC06
